@@ -269,7 +269,7 @@ func (cw *ccWorld) randUserOp(c *Ctx, ch string) ccUserOp {
 	rng := c.Rng
 	other := map[string]string{"tt": "VT", "vt": "TT"}[ch]
 	own := strings.ToUpper(ch)
-	o := ccUserOp{ch: ch, id: []string{"i1", "i2", "i3"}[rng.Intn(3)], to: other, user: rng.Intn(2), amt: int64(rng.Intn(400))}
+	o := ccUserOp{ch: ch, id: ccIDPool[rng.Intn(3)], to: other, user: rng.Intn(2), amt: int64(rng.Intn(400))}
 	switch r := rng.Intn(100); {
 	case r < 40:
 		o.tok = own
@@ -300,6 +300,9 @@ func (cw *ccWorld) randUserOp(c *Ctx, ch string) ccUserOp {
 	return o
 }
 
+// transfer ids: record keys are case-sensitive, "i2" and "I2" are two transfers
+var ccIDPool = []string{"i1", "i2", "I2"}
+
 func genC10(c *Ctx) error {
 	c.ShardSize = 20
 	c.Notes["rule"] = "two deployed chaincodes (TT, VT), two users and the admin. (one) arbitrary step sequences on one channel: customer / admin initiations (own token, grouped token, other channel's token, foreign token, wrong channel, ids a maintainer would reject, over-funded amounts) and the robot's createTo / cancel / commit / deleteFrom / deleteTo attempted at random times, also out of turn and repeated; observed after every step. (two) interleavings of user initiations on both channels with a robot that picks, at random, among the steps its protocol enables from the two ledgers, and with customers' certificates calling the robot's five functions (create-to with the origin's real record, cancel, commit, deletes; an accepted submission is executed by the robot's next batch); both ledgers observed at the end. Non-trivial: a history with >= 2 successful and >= 2 rejected steps / >= 3 robot steps."
@@ -329,7 +332,7 @@ func c10One(c *Ctx) error {
 	okN, rejN := 0, 0
 	for k := 12 + rng.Intn(15); k > 0; k-- {
 		var term, msg string
-		id := []string{"i1", "i2", "i3"}[rng.Intn(3)]
+		id := ccIDPool[rng.Intn(3)]
 		switch r := rng.Intn(100); {
 		case r < 35:
 			term, msg = cw.userOp(cw.randUserOp(c, ch))
@@ -399,7 +402,7 @@ func c10Two(c *Ctx) error {
 			// If the submission is accepted the honest robot executes it with its next batch.
 			ch := []string{"tt", "vt"}[rng.Intn(2)]
 			other := map[string]string{"tt": "vt", "vt": "tt"}[ch]
-			id := []string{"i1", "i2", "i3"}[rng.Intn(3)]
+			id := ccIDPool[rng.Intn(3)]
 			var term string
 			switch rng.Intn(5) {
 			case 0, 1:
@@ -428,7 +431,7 @@ func c10Two(c *Ctx) error {
 		}
 		// the robot looks at both ledgers and performs one step its protocol enables
 		a2b := rng.Intn(2) == 0
-		id := []string{"i1", "i2", "i3"}[rng.Intn(3)]
+		id := ccIDPool[rng.Intn(3)]
 		kind := []string{"createTo", "commit", "deleteTo", "deleteFrom", "cancel"}[rng.Intn(5)]
 		if rng.Intn(10) < 7 {
 			// mostly pick among the steps that are enabled right now
@@ -443,7 +446,7 @@ func c10Two(c *Ctx) error {
 				if !d {
 					o2, d2 = "vt", "tt"
 				}
-				for _, i := range []string{"i1", "i2", "i3"} {
+				for _, i := range ccIDPool {
 					f, t := cw.rec(o2, "/transfer/from/", i), cw.rec(d2, "/transfer/to/", i)
 					switch {
 					case f != nil && t == nil && !f.GetIsCommit():
